@@ -151,6 +151,9 @@ def _check_calls(found, idx, now, o, info, post, l1):
         if calls or o["spy_u"] or o["spy_c"]:
             found.append((idx, "C06:called-without-updates", "the datagram at %d changes nothing, yet listeners were called (%r)" % (now, o["order"])))
         return
+    if o.get("legacy") is not None and o["legacy"] != [n for n, _ in (o["u"] or [])]:
+        found.append((idx, "C06:legacy-update_record-shim", "a listener that only implements update_record got %r, the update list has %r"
+                      % (o["legacy"][:4], [n for n, _ in (o["u"] or [])][:4])))
     if o["spy_u"] != 1 or o["spy_c"] != 1:
         found.append((idx, "C06:call-count", "a listener registered throughout got %d update calls and %d complete calls" % (o["spy_u"], o["spy_c"])))
     # every update call precedes every complete call
